@@ -1,0 +1,13 @@
+//go:build verif
+
+// Contracts for govc (/verif): C34. Comment-only file.
+
+package crypto
+
+// SigValid(pub, msg, sig): the Ed25519-style signature predicate over the key, the message hash and the 64-byte signature VALUE, implemented by
+// (*Key).Verify (edwards25519 arithmetic: out of subset). Uninterpreted; Verify is ASSUMED to be a side-effect free, total decision procedure
+// for it (assumed contract of (*Key).Verify in zz_contracts_c30_verif.go: `result <==> SigValid(*publicKey, message, sig)`).
+//@ uninterp SigValid(pub Key, msg Hash, sig Signature) bool
+
+// SigOf(priv, msg): the (deterministic) signature produced by (*Key).Sign (assumed contract in zz_contracts_c30_verif.go).
+//@ uninterp SigOf(priv Key, msg Hash) Signature
